@@ -10,22 +10,27 @@ S = "eqsig/single.py"
 F = "eqsig/fns/frequency.py"
 IM = "eqsig/im.py"
 VARIANTS = [
+    # F15 (repaired in /repo 5e5fe47): the grid spacing must use the FFT length itself; 2 * int(N / 2) is N only for even N
+    B("f15-obj-grid-2points", S, "        self._fa_freqs = np.arange(points) / (n_factor * self.dt)\n", "        self._fa_freqs = np.arange(points) / (2 * points * self.dt)\n", "R-FAS-TYPE"),
+    B("f15-arr-grid-2points", F, "    fa_frequencies = np.arange(points) / (len(fa) * sig.dt)\n    return fa_spectrum, fa_frequencies\n\n\ndef calc_fa_spectrum",
+      "    fa_frequencies = np.arange(points) / (2 * points * sig.dt)\n    return fa_spectrum, fa_frequencies\n\n\ndef calc_fa_spectrum", "R-FAS-TYPE"),
+    T("f15-obj-grid-len-fa", S, "        self._fa_freqs = np.arange(points) / (n_factor * self.dt)\n", "        self._fa_freqs = np.arange(points) / (len(fa) * self.dt)\n"),
     B("obj-no-dt", S, "        self._fa_spectrum = fa[range(points)] * self.dt\n", "        self._fa_spectrum = fa[range(points)]\n", "R-FAS-TYPE"),
     B("obj-div-dt", S, "        self._fa_spectrum = fa[range(points)] * self.dt\n", "        self._fa_spectrum = fa[range(points)] / self.dt\n", "R-FAS-TYPE"),
     B("obj-abs-spectrum", S, "        self._fa_spectrum = fa[range(points)] * self.dt\n", "        self._fa_spectrum = abs(fa[range(points)]) * self.dt\n", "R-FAS-TYPE"),
-    B("obj-grid-npts", S, "        self._fa_freqs = np.arange(points) / (2 * points * self.dt)\n", "        self._fa_freqs = np.arange(points) / (self.npts * self.dt)\n", "R-FAS-TYPE"),
-    B("obj-grid-no-2", S, "        self._fa_freqs = np.arange(points) / (2 * points * self.dt)\n", "        self._fa_freqs = np.arange(points) / (points * self.dt)\n", "R-FAS-TYPE"),
-    B("obj-grid-from-1", S, "        self._fa_freqs = np.arange(points) / (2 * points * self.dt)\n", "        self._fa_freqs = np.arange(1, points + 1) / (2 * points * self.dt)\n", "R-FAS-TYPE"),
+    B("obj-grid-npts", S, "        self._fa_freqs = np.arange(points) / (n_factor * self.dt)\n", "        self._fa_freqs = np.arange(points) / (self.npts * self.dt)\n", "R-FAS-TYPE"),
+    B("obj-grid-no-2", S, "        self._fa_freqs = np.arange(points) / (n_factor * self.dt)\n", "        self._fa_freqs = np.arange(points) / (points * self.dt)\n", "R-FAS-TYPE"),
+    B("obj-grid-from-1", S, "        self._fa_freqs = np.arange(points) / (n_factor * self.dt)\n", "        self._fa_freqs = np.arange(1, points + 1) / (n_factor * self.dt)\n", "R-FAS-TYPE"),
     B("obj-bins-plus-1", S, "        points = int(n_factor / 2)\n        self._fa_spectrum", "        points = int(n_factor / 2) + 1\n        self._fa_spectrum", "R-FAS-TYPE"),
     B("obj-ignores-p2", S, "            n_factor = 2 ** int(np.ceil(np.log2(self.npts)) + p2_plus)\n", "            n_factor = 2 ** int(np.ceil(np.log2(self.npts)))\n", "R-FAS-SIB"),
     B("obj-floor-log", S, "            n_factor = 2 ** int(np.ceil(np.log2(self.npts)) + p2_plus)\n", "            n_factor = 2 ** int(np.floor(np.log2(self.npts)) + p2_plus)\n", "R-FAS-SIB"),
     B("obj-fft-other-length", S, "        fa = np.fft.fft(self.values, n=n_factor)\n", "        fa = np.fft.fft(self.values, n=2 * n_factor)\n", "R-FAS-TYPE"),
     B("obj-n-ignored", S, "        if n is not None:\n            n_factor = n\n", "        if n is not None:\n            n_factor = 2 ** int(np.ceil(np.log2(n)))\n", "R-FAS-SIB"),
     B("calc-p2-ignored", F, "            n_vals = 2 ** int(np.ceil(np.log2(npts)) + p2_plus)\n", "            n_vals = 2 ** int(np.ceil(np.log2(npts)))\n", "R-FAS-SIB"),
-    B("calc-unpadded-pads", F, "        fa = np.fft.fft(sig.values)\n        points = int(sig.npts / 2)\n    fa_spectrum = fa[range(points)] * sig.dt\n    fa_frequencies = np.arange(points) / (2 * points * sig.dt)\n    return fa_spectrum, fa_frequencies\n\n\ndef fas2values",
-      "        fa = np.fft.fft(sig.values, n=2 * npts)\n        points = int(sig.npts / 2)\n    fa_spectrum = fa[range(points)] * sig.dt\n    fa_frequencies = np.arange(points) / (2 * points * sig.dt)\n    return fa_spectrum, fa_frequencies\n\n\ndef fas2values", "R-FAS-TYPE"),
-    B("generate-velocity", F, "        fa = np.fft.fft(sig.values, n=n_factor)\n        points = int(n_factor / 2)\n        assert len(fa) == n_factor\n    else:\n        fa = np.fft.fft(sig.values)\n        points = int(sig.npts / 2)\n    fa_spectrum = fa[range(points)] * sig.dt\n    fa_frequencies = np.arange(points) / (2 * points * sig.dt)\n    return fa_spectrum, fa_frequencies\n\n\ndef calc_fa",
-      "        fa = np.fft.fft(sig.values - sig.values[0], n=n_factor)\n        points = int(n_factor / 2)\n        assert len(fa) == n_factor\n    else:\n        fa = np.fft.fft(sig.values)\n        points = int(sig.npts / 2)\n    fa_spectrum = fa[range(points)] * sig.dt\n    fa_frequencies = np.arange(points) / (2 * points * sig.dt)\n    return fa_spectrum, fa_frequencies\n\n\ndef calc_fa", None),
+    B("calc-unpadded-pads", F, "        fa = np.fft.fft(sig.values)\n        points = int(sig.npts / 2)\n    fa_spectrum = fa[range(points)] * sig.dt\n    fa_frequencies = np.arange(points) / (len(fa) * sig.dt)\n    return fa_spectrum, fa_frequencies\n\n\ndef fas2values",
+      "        fa = np.fft.fft(sig.values, n=2 * npts)\n        points = int(sig.npts / 2)\n    fa_spectrum = fa[range(points)] * sig.dt\n    fa_frequencies = np.arange(points) / (len(fa) * sig.dt)\n    return fa_spectrum, fa_frequencies\n\n\ndef fas2values", "R-FAS-TYPE"),
+    B("generate-velocity", F, "        fa = np.fft.fft(sig.values, n=n_factor)\n        points = int(n_factor / 2)\n        assert len(fa) == n_factor\n    else:\n        fa = np.fft.fft(sig.values)\n        points = int(sig.npts / 2)\n    fa_spectrum = fa[range(points)] * sig.dt\n    fa_frequencies = np.arange(points) / (len(fa) * sig.dt)\n    return fa_spectrum, fa_frequencies\n\n\ndef calc_fa",
+      "        fa = np.fft.fft(sig.values - sig.values[0], n=n_factor)\n        points = int(n_factor / 2)\n        assert len(fa) == n_factor\n    else:\n        fa = np.fft.fft(sig.values)\n        points = int(sig.npts / 2)\n    fa_spectrum = fa[range(points)] * sig.dt\n    fa_frequencies = np.arange(points) / (len(fa) * sig.dt)\n    return fa_spectrum, fa_frequencies\n\n\ndef calc_fa", None),
     B("getter-freqs-returns-spectrum", S, "            self.gen_fa_spectrum()\n        return self._fa_freqs\n", "            self.gen_fa_spectrum()\n        return self._fa_spectrum\n", "R-FAS-SIB"),
     B("inv-no-conj-values", F, "    a[n // 2 + 1:] = np.flip(np.conj(fas[1:]), axis=0)\n    a /= dt\n    s = np.fft.ifft(a)\n    npts = n  # all n points (int(2 ** (np.log(n) / np.log(2))) rounds down to n - 1 for some n, e.g. 14)\n    s = s[:npts]\n    return s\n",
       "    a[n // 2 + 1:] = np.flip(fas[1:], axis=0)\n    a /= dt\n    s = np.fft.ifft(a)\n    npts = n  # all n points (int(2 ** (np.log(n) / np.log(2))) rounds down to n - 1 for some n, e.g. 14)\n    s = s[:npts]\n    return s\n", "R-INV-DT"),
@@ -48,7 +53,7 @@ VARIANTS = [
     T("obj-slice-bins", S, "        self._fa_spectrum = fa[range(points)] * self.dt\n", "        self._fa_spectrum = fa[:points] * self.dt\n"),
     T("obj-floordiv", S, "        points = int(n_factor / 2)\n        self._fa_spectrum", "        points = n_factor // 2\n        self._fa_spectrum"),
     T("obj-dt-first", S, "        self._fa_spectrum = fa[range(points)] * self.dt\n", "        self._fa_spectrum = self.dt * fa[range(points)]\n"),
-    T("obj-grid-rearranged", S, "        self._fa_freqs = np.arange(points) / (2 * points * self.dt)\n", "        self._fa_freqs = np.arange(points) / points / self.dt / 2\n"),
+    T("obj-grid-rearranged", S, "        self._fa_freqs = np.arange(points) / (n_factor * self.dt)\n", "        self._fa_freqs = np.arange(points) / n_factor / self.dt\n"),
     T("max-period-builtin-abs", IM, "    max_index = np.argmax(np.abs(asig.fa_spectrum))\n", "    max_index = np.argmax(asig.fa_spectrum_abs)\n"),
     T("inv-conj-method", F, "    a[n // 2 + 1:] = np.flip(np.conj(fas[1:]), axis=0)\n    a /= dt\n    s = np.fft.ifft(a)\n    npts = n  # all n points (int(2 ** (np.log(n) / np.log(2))) rounds down to n - 1 for some n, e.g. 14)\n    s = s[:npts]\n    return s\n",
       "    a[n // 2 + 1:] = np.flip(fas[1:].conj(), axis=0)\n    a = a / dt\n    s = np.fft.ifft(a)\n    npts = n  # all n points (int(2 ** (np.log(n) / np.log(2))) rounds down to n - 1 for some n, e.g. 14)\n    s = s[:npts]\n    return s\n"),
